@@ -4,7 +4,9 @@
 set -uo pipefail
 cd "$(dirname "$0")/.."
 . ./env.sh
-P=$1; V=$2; SRC=/tmp/seed/$P/out
+P=$1; V=$2; BASE=${3:-/tmp/seed}; SRC=$BASE/$P/out
+# second-round changes are filed as C / D
+OUTV=$V; if [ "$BASE" != "/tmp/seed" ]; then if [ "$V" = "A" ]; then OUTV=C; else OUTV=D; fi; fi
 WT=/tmp/sv-$P-$V
 rm -rf $WT; git -C /repo worktree add -q $WT HEAD || exit 2
 trap 'git -C /repo worktree remove --force '$WT' >/dev/null 2>&1' EXIT
@@ -26,12 +28,12 @@ rm $dest/${V}_demo_test.go
 (cd $WT && go test -vet=off -count=1 ./... > /tmp/sv-suite.log 2>&1); suite=$?
 echo "demo on clean tree: exit $clean (want 0); demo with change: exit $mut (want !=0); repo suite with change: exit $suite (want 0)"
 if [ $clean -eq 0 ] && [ $mut -ne 0 ] && [ $suite -eq 0 ]; then
-  d=seeded/$P-$V; mkdir -p $d
+  d=seeded/$P-$OUTV; mkdir -p $d
   cp $SRC/$V.patch.diff $d/patch.diff; cp $demo $d/demo_test.go
-  python3 - "$P" "$V" "$d" "$run" "${hint%/}" <<'PY'
+  python3 - "$P" "$OUTV" "$d" "$run" "${hint%/}" "$SRC" <<'PY'
 import json,sys,re
-P,V,d,run,pkg=sys.argv[1:]
-readme=open(f'/tmp/seed/{P}/out/README.md').read()
+P,V,d,run,pkg,src=sys.argv[1:]
+readme=open(f'{src}/README.md').read()
 json.dump({"property":P,"variant":V,"origin":"independent sub-agent given only the property text and a scratch worktree",
  "demo":{"file":"demo_test.go","place_in":pkg,"run":f"go test -vet=off -count=1 -run '{run}' ./{pkg}/"},
  "verified":{"patch_applies_to_HEAD":True,"repo_suite_passes_with_change":True,"demo_fails_with_change":True,"demo_passes_without_change":True,
